@@ -175,6 +175,19 @@ def c07_ir(draw, tier, exclude):
                 lp, c2, p2 = draw(st.sampled_from(pairs))
                 var2 = c2
                 conds.insert(0, {"c": "join", "lpath": lp, "rpath": p2})
+        # the same between a class and one of its sub- or superclasses (the two variables share tables: the translator
+        # has to reject it whichever of them is written on the left)
+        if "two_variable_query" not in exclude and var2 is None and draw(st.sampled_from([0, 0, 1])):
+            related = [(lp, c2, p2) for lp, lt in rp if len(lp) == 1 for c2 in range(n_cls) if c2 != ci
+                       and (ci in MI.ancestors(model, c2) or c2 in MI.ancestors(model, ci))
+                       for p2, t2 in ref_paths(model, c2) if t2 == lt and len(p2) == 1]
+            if "join_over_none_ends" in exclude:
+                related = [(lp, c2, p2) for lp, c2, p2 in related if not join_over_none_ends(model, graph, ci, lp, c2, p2)]
+            if related:
+                lp, c2, p2 = draw(st.sampled_from(related))
+                var2 = c2
+                conds.insert(0, {"c": "join", "lpath": lp, "rpath": p2})
+        joined = any(c["c"] == "join" for c in conds)
         # a comparison with a column that the second variable inherits from far up its hierarchy needs a class two
         # levels below a root and a first variable outside that hierarchy; when the model has such a pair it is used often
         if "two_variable_query" not in exclude and var2 is None and sp and draw(st.sampled_from([0, 1])):
@@ -189,7 +202,9 @@ def c07_ir(draw, tier, exclude):
                 if far and len(lp) == 1:
                     var2 = c2
                     conds.insert(0, {"c": "cmp2", "lpath": lp, "op": draw(st.sampled_from(sorted(OPS))), "rpath": draw(st.sampled_from(far))})
-        queries.append({"var": ci, "quant": draw(st.sampled_from(["an", "an", "an", "the"])), "conds": conds, "var2": var2})
+        # the(...) over a join: an entity with several join partners is several solutions
+        quant = draw(st.sampled_from(["an", "the"] if joined else ["an", "an", "an", "the"]))
+        queries.append({"var": ci, "quant": quant, "conds": conds, "var2": var2})
     return {"model": model, "graph": graph, "queries": queries}
 
 
